@@ -64,6 +64,15 @@ def rule_menu(cols, roles):
             add("use_and_produce_same_step", "reject", {"op": "extend", "ops": {z: O("+", C(A), V(1)), A: O("+", C(B), V(1))}})
             add("disjoint_assignments", "accept", {"op": "extend", "ops": {z: O("+", C(A), V(1)), z2: O("+", C(B), V(1))}})
         add("use_and_produce_same_step", "reject", {"op": "extend", "ops": {z: O("+", C(A), V(1)), z2: O("+", C(z), V(1))}})
+        # the same rules when the assignments are given as expression objects instead of text
+        add("self_update", "accept", {"op": "extend", "ops": {A: O("+", C(A), V(1))}, "as_terms": True})
+        if B:
+            add("use_and_produce_same_step", "reject", {"op": "extend", "ops": {A: O("+", C(B), V(1)), z: O("*", C(A), V(2))}, "as_terms": True})
+            add("use_and_produce_same_step", "reject", {"op": "extend", "ops": {z: O("*", C(A), V(2)), A: O("+", C(B), V(1))}, "as_terms": True})
+            add("disjoint_assignments", "accept", {"op": "extend", "ops": {z: O("+", C(A), V(1)), z2: O("+", C(B), V(1))}, "as_terms": True})
+            add("use_and_produce_same_step", "reject", {"op": "project", "ops": {z: M("min", C(A)), A: M("max", C(A))}, "as_terms": True})
+        add("unknown_column", "reject", {"op": "extend", "ops": {z: O("+", C(bad), V(1))}, "as_terms": True})
+        add("project_non_aggregating", "reject", {"op": "project", "ops": {"s": O("+", C(A), V(1))}, "as_terms": True})
         # ---- rule: non-aggregating / too complex project expressions
         add("project_non_aggregating", "reject", {"op": "project", "ops": {"s": O("+", C(A), V(1))}})
         add("project_non_aggregating", "reject", {"op": "project", "ops": {"s": C(A)}})
@@ -76,6 +85,13 @@ def rule_menu(cols, roles):
         # ---- rule: non-aggregating / too complex windowed expressions
         add("window_non_aggregating", "reject", {"op": "extend", "ops": {z: O("+", C(A), V(1))}, "partition_by": 1})
         add("window_non_aggregating", "reject", {"op": "extend", "ops": {z: C(A)}, "partition_by": 1})
+        # an aggregate makes a plain extend a window over the whole table: a constant or a column copy next to
+        # it is a non-aggregated expression, whichever comes first
+        add("window_non_aggregating", "reject", {"op": "extend", "ops": {z: V(1), z2: M("max", C(A))}})
+        add("window_non_aggregating", "reject", {"op": "extend", "ops": {z2: M("max", C(A)), z: V(1)}})
+        add("window_non_aggregating", "reject", {"op": "extend", "ops": {z: C(A), z2: M("max", C(A))}})
+        add("window_non_aggregating", "reject", {"op": "extend", "ops": {z2: M("max", C(A)), z: C(A)}})
+        add("window_simple_aggregate", "accept", {"op": "extend", "ops": {z: M("max", C(A)), z2: M("sum", C(A))}})
         add("window_too_complex", "reject", {"op": "extend", "ops": {z: M("sum", O("+", C(A), V(1)))}, "partition_by": 1})
         add("window_too_complex", "reject", {"op": "extend", "ops": {z: O("+", M("sum", C(A)), V(1))}, "partition_by": 1})
         if K0:
@@ -100,6 +116,9 @@ def rule_menu(cols, roles):
         if "w" not in cols:
             add("join_missing_key", "reject", {"op": "natural_join", "b": menus.E_HIST, "on": ["w"], "jointype": "LEFT"})
         add("join_keys_present", "accept", {"op": "natural_join", "b": menus.E_HIST, "on": ["g"], "jointype": "LEFT"})
+        # the same through the deprecated synonym by=
+        add("join_missing_key", "reject", {"op": "natural_join", "b": menus.E_HIST, "on": [bad], "jointype": "LEFT", "use_by": True})
+        add("join_keys_present", "accept", {"op": "natural_join", "b": menus.E_HIST, "on": ["g"], "jointype": "LEFT", "use_by": True})
         add("join_keys_present", "accept", {"op": "natural_join", "b": menus.E_HIST, "on": [["g", "g"]], "jointype": "FULL"})
         common_e = (set(cols) & {"g", "w", "y"}) - {"g"}
         if common_e:
